@@ -327,7 +327,30 @@ pub fn corrupt_word(t: &mut Tape, word: &str) -> Vec<u8> {
 pub fn corrupt_port_text(t: &mut Tape, valid: &str) -> Vec<u8> {
     let mut s = valid.as_bytes().to_vec();
     let n = s.len();
-    match t.weighted(&[3, 2, 3, 2]) {
+    match t.weighted(&[3, 2, 3, 2, 2]) {
+        4 => {
+            // the valid value plus a power of two: it comes out right again in arithmetic that wraps at 16, 32, 64 or 128 bits
+            let v: u128 = valid.parse::<u128>().unwrap_or(443);
+            s = match t.below(6) {
+                0 => format!("{}", v + (1u128 << 16)),
+                1 => format!("{}", v + (1u128 << 32)),
+                2 | 3 => format!("{}", v + (1u128 << 64)),
+                4 => format!("{}", v + (1u128 << 64) * (2 + t.below(5) as u128)),
+                // 2^128 + v, written out: 340282366920938463463374607431768211456 + v
+                _ => {
+                    let base = "340282366920938463463374607431768211456";
+                    let mut d: Vec<u8> = base.bytes().map(|b| b - b'0').collect();
+                    let mut carry = v;
+                    for x in d.iter_mut().rev() {
+                        let sum = *x as u128 + carry % 10;
+                        *x = (sum % 10) as u8;
+                        carry = carry / 10 + sum / 10;
+                    }
+                    d.iter().map(|x| (b'0' + x) as char).collect()
+                }
+            }
+            .into_bytes();
+        }
         0 => {
             let k = t.below(n as u32) as usize;
             s[k] = *t.pick(&[b'x', b'o', b'-', b'.', b'a', b'+', b'_']);
@@ -634,6 +657,11 @@ pub fn gen_valid_parts(t: &mut Tape, ascii_only: bool) -> V1Parts {
                 gen_port(t).to_string().into_bytes(),
                 gen_port(t).to_string().into_bytes(),
             ];
+            // all four fields from one special class at once (wildcard endpoints of a health check; everything at its maximum)
+            if t.chance(1, 24) {
+                let (a, q) = if t.chance(2, 3) { ("0.0.0.0", "0") } else { ("255.255.255.255", "65535") };
+                p.fields = vec![a.into(), a.into(), q.into(), q.into()];
+            }
         }
         1 => {
             p.proto = b"TCP6".to_vec();
@@ -650,6 +678,11 @@ pub fn gen_valid_parts(t: &mut Tape, ascii_only: bool) -> V1Parts {
                 sa = spell_v6_canonical(a);
             }
             p.fields = vec![sa.into_bytes(), sb.into_bytes(), pa.to_string().into_bytes(), pb.to_string().into_bytes()];
+            if t.chance(1, 24) {
+                let z = ["::", "0:0:0:0:0:0:0:0", "::0", "0::", "::0.0.0.0", "0000:0000:0000:0000:0000:0000:0000:0000"];
+                let (a, b, q): (&str, &str, &str) = if t.chance(2, 3) { (*t.pick(&z), *t.pick(&z), "0") } else { ("ffff:ffff:ffff:ffff:ffff:ffff:ffff:ffff", "FFFF:FFFF:FFFF:FFFF:FFFF:FFFF:255.255.255.255", "65535") };
+                p.fields = vec![a.into(), b.into(), q.into(), q.into()];
+            }
         }
         _ => {
             p.proto = b"UNKNOWN".to_vec();
@@ -1199,7 +1232,27 @@ pub fn gen_addr_block(t: &mut Tape, fam: u8) -> Vec<u8> {
         _ => {
             let mut b = Vec::new();
             for _ in 0..2 {
-                let mut path = match t.weighted(&[1, 2, 1]) {
+                let mut path = match t.weighted(&[2, 4, 2, 1, 1, 1]) {
+                    // abstract names: a leading NUL, then a short name padded with zeros / 107 non-zero bytes (the name fills
+                    // sun_path: no terminator anywhere); a path that fills all 108 bytes without terminator
+                    3 => {
+                        let mut p = vec![0u8];
+                        p.extend_from_slice(format!("haproxy-{}", t.below(100)).as_bytes());
+                        p.resize(108, 0);
+                        p
+                    }
+                    4 => {
+                        let mut p = vec![0u8];
+                        p.extend(fill(t.u32() | 1, 107).into_iter().map(|b| if b == 0 { b'a' } else { b }));
+                        p
+                    }
+                    5 => {
+                        let mut p = b"/var/run/".to_vec();
+                        while p.len() < 108 {
+                            p.push(b'a' + (p.len() % 26) as u8);
+                        }
+                        p
+                    }
                     0 => vec![0u8; 108],
                     1 => {
                         let mut p = format!("/run/sock-{}.s", t.u16()).into_bytes();
@@ -1299,8 +1352,52 @@ pub fn gen_tlv_list(t: &mut Tape, room: usize) -> Vec<(u8, Vec<u8>)> {
                 value.truncate(max);
             }
         }
+        let mut kind = kind;
+        // one item in twelve is a TLV as it occurs in practice: a registered type with the kind of value that type carries
+        // (ALPN ids - also in TLS wire form with a length byte in front -, host names, request ids as UUID text in either
+        // case, TLS versions / ciphers / certificate names, a CRC, a namespace)
+        if t.chance(1, 12) {
+            let (k, v): (u8, Vec<u8>) = match t.below(14) {
+                0 => (0x01, t.pick(&["h2", "http/1.1", "h3", "spdy/3.1"]).as_bytes().to_vec()),
+                1 => {
+                    let w = t.pick(&["h2", "http/1.1", "h3", "acme-tls/1"]).as_bytes();
+                    let mut v = vec![w.len() as u8];
+                    v.extend_from_slice(w);
+                    (0x01, v)
+                }
+                2 => (0x02, t.pick(&["example.org", "EXAMPLE.ORG", "xn--bcher-kva.example", "a.b", "localhost."]).as_bytes().to_vec()),
+                3 => (0x03, t.u32().to_be_bytes().to_vec()),
+                4 => (0x04, vec![0u8; t.usize_in(0, 9)]),
+                5 | 6 => {
+                    let u = *t.pick(&["123e4567-e89b-12d3-a456-426614174000", "123E4567-E89B-12D3-A456-426614174000", "00000000-0000-0000-0000-00000000000A", "f81d4fae-7dec-11d0-A765-00a0c91e6bf6", "FFFFFFFF-FFFF-FFFF-FFFF-FFFFFFFFFFFF"]);
+                    (0x05, u.as_bytes().to_vec())
+                }
+                7 => (0x05, format!("req-{:08X}", t.u32()).into_bytes()),
+                8 => (0x21, t.pick(&["TLSv1.3", "TLSv1.2", "tlsv1.3"]).as_bytes().to_vec()),
+                9 => (0x22, t.pick(&["example.org", "CN=client,O=Example", "*.example.org"]).as_bytes().to_vec()),
+                10 => (0x23, t.pick(&["ECDHE-RSA-AES128-GCM-SHA256", "TLS_AES_256_GCM_SHA384"]).as_bytes().to_vec()),
+                11 => (0x24, t.pick(&["SHA256", "RSA-SHA256"]).as_bytes().to_vec()),
+                12 => (0x25, t.pick(&["RSA2048", "EC256"]).as_bytes().to_vec()),
+                _ => (0x30, t.pick(&["blue", "ns-0", "/var/run/netns/x"]).as_bytes().to_vec()),
+            };
+            if v.len() <= max {
+                kind = k;
+                value = v;
+            }
+        } else if t.chance(1, 16) && !value.is_empty() && value.len() <= 256 {
+            // a counted string: the first byte states how many bytes follow (ALPN / DNS label / Pascal style)
+            value[0] = (value.len() - 1) as u8;
+        }
         used += 3 + value.len();
         out.push((kind, value));
+        // a duplicate of an earlier item (every hop of a chain appends the same id again): same type, same value
+        if t.chance(1, 10) {
+            let (k, v) = out[t.below(out.len() as u32) as usize].clone();
+            if used + 3 + v.len() <= room {
+                used += 3 + v.len();
+                out.push((k, v));
+            }
+        }
     }
     out
 }
@@ -1317,7 +1414,28 @@ pub fn enc_tlv_list(list: &[(u8, Vec<u8>)]) -> Vec<u8> {
 
 /// TLV section bytes of one of the classes empty / well-formed / truncated / random.
 pub fn gen_tlv_section(t: &mut Tape, room: usize) -> (Vec<u8>, &'static str) {
-    match t.weighted(&[4, 10, 4, 4, 1, 1]) {
+    match t.weighted(&[8, 20, 8, 8, 2, 2, 1]) {
+        6 => {
+            // thousands of tiny items (registered types, values of 0..8 bytes), up to the whole room
+            let n = match t.below(4) {
+                0 => room,
+                1 => t.usize_in(0, room.min(70_000)),
+                2 => (4096 * 3 + t.usize_in(0, 64)).min(room),
+                _ => t.usize_in(0, room.min(40_000)),
+            };
+            let mut s = tlv_run(t.u32() | 3, n);
+            // keep whole items only
+            let mut i = 0;
+            while i + 3 <= s.len() {
+                let l = ((s[i + 1] as usize) << 8) | s[i + 2] as usize;
+                if i + 3 + l > s.len() {
+                    break;
+                }
+                i += 3 + l;
+            }
+            s.truncate(i);
+            (s, "tlv-many-tiny-items")
+        }
         4 => {
             // a TLV nested many levels deep (alone, or behind / in front of ordinary items)
             let mut s = if t.coin() { enc_tlv_list(&gen_tlv_list(t, room.min(200))) } else { vec![] };
@@ -1368,6 +1486,13 @@ pub fn gen_v2_header(t: &mut Tape) -> V2Gen {
     if t.chance(1, 40) && payload.len() < 65535 {
         let pad = 65535 - payload.len();
         payload.extend(fill(gen_seed(t), pad));
+    } else if t.chance(1, 30) {
+        // padded with zero bytes to a size a C sender would use: sizeof(union proxy_addr) = 216, the next family's block,
+        // a power of two (the zeros read as empty type-0 TLVs, or as one short item at the end)
+        let target = *t.pick(&[216usize, 216, 36, 232, 256, 512, 128, 64]);
+        if payload.len() < target {
+            payload.resize(target, 0);
+        }
     }
     let mut bytes = SIG.to_vec();
     bytes.push(0x20 | cmd);
@@ -1380,7 +1505,21 @@ pub fn gen_v2_header(t: &mut Tape) -> V2Gen {
 /// Near-miss v2 inputs (G-V2MUT).
 pub fn gen_v2_mutant(t: &mut Tape) -> (Vec<u8>, &'static str) {
     let mut h = gen_v2_header(t).bytes;
-    match t.below(13) {
+    match t.below(14) {
+        13 => {
+            // two aligned words of the first 16 / 32 bytes exchanged (4- or 8-byte words): the same bytes, the same sums
+            // and XORs over words, another order
+            let w = if t.coin() { 4 } else { 8 };
+            let span = if h.len() >= 32 && t.coin() { 32 } else { 16 };
+            let n = span / w;
+            let (a, b) = (t.below(n as u32) as usize, t.below(n as u32) as usize);
+            if a != b && h.len() >= span {
+                for k in 0..w {
+                    h.swap(a * w + k, b * w + k);
+                }
+            }
+            (h, "fixed-part-words-exchanged")
+        }
         10 => {
             // the whole header shifted: a few bytes in front of the signature (blanks, line ends, zeros, a stray byte), or
             // its first bytes missing
@@ -1412,7 +1551,12 @@ pub fn gen_v2_mutant(t: &mut Tape) -> (Vec<u8>, &'static str) {
                     2 => l + 16,
                     3 => h.len(),
                     // the right number in the wrong byte order (a host-order sender)
-                    6 | 7 => ((l & 0xff) << 8) | (l >> 8),
+                    6 => ((l & 0xff) << 8) | (l >> 8),
+                    // the 3-byte prefix of the last TLV / of every TLV not counted
+                    7 => {
+                        let n_tlvs = if fam == 0 { 0 } else { crate::oracle::tlv::tlv_ref(&h[(16 + need).min(h.len())..]).len() };
+                        if t.coin() { l.saturating_sub(3) } else { l.saturating_sub(3 * n_tlvs) }
+                    }
                     // exactly another family's block size (a dual-stack sender that labels the header with the listening
                     // socket's family but writes the peer's block)
                     _ => NEED[t.below(4) as usize],
@@ -1488,7 +1632,47 @@ pub fn gen_v2_mutant(t: &mut Tape) -> (Vec<u8>, &'static str) {
 pub fn gen_related(t: &mut Tape, x: &[u8]) -> Vec<u8> {
     let mut y = x.to_vec();
     let cr = y.iter().position(|&b| b == b'\r');
-    match t.below(16) {
+    match t.below(20) {
+        16 => {
+            // two aligned words (4 or 8 bytes) exchanged, within the first 32 bytes or anywhere
+            let w = if t.coin() { 4 } else { 8 };
+            let span = if t.coin() { y.len().min(32) } else { y.len() };
+            let n = span / w;
+            if n >= 2 {
+                let (a, b) = (t.below(n as u32) as usize, t.below(n as u32) as usize);
+                for k in 0..w {
+                    y.swap(a * w + k, b * w + k);
+                }
+            }
+        }
+        17 => {
+            // a stray CR in front of the line's own CR (same length, same line end position)
+            if let Some(p) = cr {
+                if p > 0 {
+                    let at = t.below(p as u32) as usize;
+                    y[at] = b'\r';
+                }
+            }
+        }
+        18 | 19 => {
+            // binary headers: the first segment only (fixed part and address block, perhaps a few bytes more), or the same
+            // header with another byte inside the address block
+            if y.len() > 16 && y[..12] == SIG {
+                let need = NEED[(y[13] >> 4) as usize & 3];
+                if t.coin() {
+                    let cut = 16 + need + *t.pick(&[0usize, 0, 1, 3, 7]);
+                    if cut < y.len() {
+                        y.truncate(cut);
+                    }
+                } else if need > 0 && y.len() >= 16 + need {
+                    let at = 16 + t.below(need as u32) as usize;
+                    y[at] = y[at].wrapping_add(1 + t.below(255) as u8);
+                }
+            } else if !y.is_empty() {
+                let at = t.below(y.len() as u32) as usize;
+                y[at] = y[at].wrapping_add(1);
+            }
+        }
         14 | 15 => {
             // the same endpoints spelled differently (TCP6 lines have many legal spellings per address)
             if let Some(z) = respell_v1_line(t, &y) {
@@ -1661,7 +1845,23 @@ pub fn gen_other_notation(t: &mut Tape) -> Vec<u8> {
 }
 
 pub fn gen_any_bytes(t: &mut Tape) -> (Vec<u8>, &'static str) {
-    match t.weighted(&[8, 12, 4, 4, 6, 6, 4, 1]) {
+    match t.weighted(&[160, 240, 80, 80, 120, 120, 80, 20, 1]) {
+        8 => {
+            // a very long run of one short unit (empty lines, blanks, CRs, keywords) in front of a valid line: 20 KiB .. 1 MiB
+            let unit: &[u8] = *t.pick(&[&b"\r\n"[..], b"\r\n", b" ", b"\r", b"\n", b"PROXY ", b"\0", b"\r\n\r\n\0\r\nQUIT\n"]);
+            let total = match t.below(4) {
+                0 => t.usize_in(20_000, 70_000),
+                1 => t.usize_in(70_000, 300_000),
+                2 => 1 << 20,
+                _ => t.usize_in(100, 20_000),
+            };
+            let mut x = Vec::with_capacity(total + 120);
+            while x.len() < total {
+                x.extend_from_slice(unit);
+            }
+            x.extend_from_slice(&gen_valid_line(t, true));
+            (x, "huge-leading-run")
+        }
         7 => (gen_other_notation(t), "other-notation"),
         0 => {
             let mut x = gen_valid_line(t, false);
